@@ -60,6 +60,14 @@ class ElectrumWallet(Key):
             return cls(master_public_key=blob)
         return None
 
+    def as_text(self) -> str | None:
+        """
+        Return the "E:..." text form that the electrum parsers read back.
+        """
+        if self._initial_key is not None:
+            return "E:%s" % self._initial_key
+        return "E:%s" % b2h(self.serialize())
+
     def serialize(self) -> bytes:
         if self._secret_exponent:
             return to_bytes_32(self._secret_exponent)
